@@ -121,8 +121,8 @@ macro_rules! ans_io_harnesses {
                 if grp == 1 { assert!(b0.n == 0 || s0 >= (1 as S) << (SB - WB), "C01/C04: from_binary violates the state invariant (head under-filled although words remain)"); return; }
                 if grp == 2 {
                     let g = match c.get_binary() { Ok(g) => g, Err(_) => { assert!(false, "C04/C08: get_binary failed on data loaded with from_binary"); return; } };
-                    assert!(g.n == data.n, "C08: get_binary view has the wrong length");
-                    let mut i = 0; while i < data.n { assert!(g.buf[i] == data.buf[i], "C08: get_binary view differs from the loaded data"); i += 1; }
+                    assert!(g.n == data.n, "C08/C04: get_binary view has the wrong length");
+                    let mut i = 0; while i < data.n { assert!(g.buf[i] == data.buf[i], "C08/C04: get_binary view differs from the loaded data"); i += 1; }
                 }
                 if grp == 2 {
                     let (b1, s1) = c.clone().into_raw_parts();
@@ -172,8 +172,8 @@ macro_rules! ans_io_harnesses {
                 }
                 if grp == 0 { return; }
                 let (b1, s1) = c.into_raw_parts();
-                assert!(s1 == state && b1.n == bulk.n, "C08/C01: dropping the get_compressed view did not restore the coder");
-                let mut i = 0; while i < bulk.n { assert!(b1.buf[i] == bulk.buf[i], "C08/C01: dropping the get_compressed view changed the bulk"); i += 1; }
+                assert!(s1 == state && b1.n == bulk.n, "C08/C01/C12: dropping the get_compressed view did not restore the coder (stale words stay on the bulk)");
+                let mut i = 0; while i < bulk.n { assert!(b1.buf[i] == bulk.buf[i], "C08/C01/C12: dropping the get_compressed view changed the bulk"); i += 1; }
             }
 
             /// C07: pos() == (backend position, state); seek((p, s)) truncates the stack backend to p and
